@@ -158,28 +158,41 @@ func encodeWritesTag(fn *ssa.Function) bool {
 	if fn == nil || len(fn.Params) != 2 {
 		return false
 	}
+	// byte 0 of the returned buffer is the tag parameter, however the buffer is assembled
+	// (buf[0] = tag, append(buf, tag) onto an empty buffer, …): the encoder's byte writes (lanes.go)
+	noParamLook++
+	defer func() { noParamLook-- }()
+	var rets []ssa.Value
 	for _, in := range instrsOf(fn) {
-		st, ok := in.(*ssa.Store)
-		if !ok || strip(st.Val) != strip(fn.Params[0]) {
-			continue
-		}
-		ia, ok := st.Addr.(*ssa.IndexAddr)
-		if !ok {
-			continue
-		}
-		if k, ok := constInt(ia.Index); ok && k == 0 {
-			for _, in2 := range instrsOf(fn) {
-				if r, ok := in2.(*ssa.Return); ok && sameValue(r.Results[0], ia.X) {
-					return true
-				}
-			}
+		if r, ok := in.(*ssa.Return); ok && len(r.Results) == 1 {
+			rets = append(rets, bufferRoot(r.Results[0]))
 		}
 	}
-	return false
+	if len(rets) == 0 {
+		return false
+	}
+	for _, rv := range rets {
+		found := false
+		for _, w := range encoderWrites(fn) {
+			if !w.Pos.OK || w.Pos.Base != "" || w.Pos.Off != 0 {
+				continue
+			}
+			if w.Lane.Kind != laneSrc || w.Lane.K != 0 || strip(w.Lane.Src) != ssa.Value(fn.Params[0]) {
+				continue
+			}
+			if w.Buf == rv || sameValue(w.Buf, rv) {
+				found = true
+			}
+		}
+		if !found {
+			return false
+		}
+	}
+	return true
 }
 
 func checkC04(c *Ctx) {
-	c.explanation = "Static decision of the table clauses of RBC totality: (T1) for each of the four backends the map broadcast-class message type → round read from source (switch in ClassifyMsg of BLS/PS; msgURL2Round/broadcastMessages under ClassifyMsg's normalisation for the adapters) is injective per session phase with every round ≤127; (T2) for every sendMsg(encodeMsg(K,…), B, …) call site of BLS and PS the receiver-side ClassifyMsg returns class B for constant K and encodeMsg really writes K as first byte; (G1) acknowledgements about own messages are dropped before registration; (V1) point-to-point messages are passed through. Exactly-once delivery under every interleaving is a liveness statement over schedules and is not decided."
+	c.explanation = "Static decision of the table clauses of RBC totality: (T1) for each of the four backends the map broadcast-class message type → round read from source (switch in ClassifyMsg of BLS/PS; msgURL2Round/broadcastMessages under ClassifyMsg's normalisation for the adapters) is injective per session phase with every round ≤127; (T2) for every sendMsg(encodeMsg(K,…), B, …) call site of BLS and PS the receiver-side ClassifyMsg returns class B for constant K and encodeMsg really writes K as first byte; (G1) acknowledgements about own messages are dropped before registration; (V1) point-to-point messages are passed through; (V2) the round and class a received payload is registered under are the local classifier's verdict on that payload, the fields of an acknowledgement are the decoder's output (otherwise distinct table rounds do not give distinct registrations: the second broadcast of an honest sender would look like equivocation). Exactly-once delivery under every interleaving is a liveness statement over schedules and is not decided."
 	c.notDecided = "exactly-once delivery and absence of false equivocation under every interleaving (parking of early acknowledgements, several senders/rounds in flight)"
 	const T1, T2, G1, V1 = "C04.T1", "C04.T2", "C04.G1", "C04.V1"
 	c.Rule(T1, "broadcast-class message types of one phase have distinct rounds ≤127", 4+16)
@@ -353,6 +366,12 @@ func checkC04(c *Ctx) {
 	}
 	ruleC04Drops(c, r)
 	ruleC04Callbacks(c)
+	// V2: the tables above say that broadcast types have distinct rounds; that helps only if the round a
+	// received payload is registered under IS the local classifier's verdict on that payload (and an
+	// acknowledgement's round the decoder's output) — the provenance rule shared with C02.V1 / C03.V2
+	if t := buildThresholdModel(c); t != nil {
+		ruleC02V1(c, t, "C04.V2")
+	}
 }
 
 // ruleC04Callbacks (C04.O3): the two callbacks the orchestrator gives to every reliable-broadcast
